@@ -807,9 +807,9 @@ func genC13(w *bufio.Writer, rng *hx.Rng, tier string) {
 	}
 	// end to end through the real processor: a few configurations per plugin, metric labels taken
 	// from event fields (countEvent), real Propagate / Spawn / stream time-outs
-	nPipe := 8
+	nPipe := 20
 	if full {
-		nPipe = 120
+		nPipe = 300
 	}
 	for _, p := range c13Plugins {
 		sys := c13Systematic(p)
@@ -837,7 +837,11 @@ func genC13(w *bufio.Writer, rng *hx.Rng, tier string) {
 					evs = append(evs, e)
 				}
 			}
-			fmt.Fprintf(w, "c13.pipe %s %s %s %d", c.plugin, hx.Enc(c.jsonBytes()), c.ps.tok(), len(labels))
+			cmd := "c13.pipe"
+			if i%4 == 3 {
+				cmd = "c13.pipeout" // real stdout output plugin
+			}
+			fmt.Fprintf(w, "%s %s %s %s %d", cmd, c.plugin, hx.Enc(c.jsonBytes()), c.ps.tok(), len(labels))
 			for _, l := range labels {
 				fmt.Fprintf(w, " %s", hx.Enc([]byte(l)))
 			}
